@@ -374,6 +374,20 @@ class CompareHooks:
         # other is None / isinstance checks: the conversion prologue
         if (isinstance(l, ast.Name) and l.id == self.other) or 'isinstance' in norm(t):
             return [(False, facts)]
+        # a component tested for absence: both outcomes, remembered on the path (a result decided by it is not the "0" default)
+        if isinstance(t.ops[0], (ast.Is, ast.IsNot)) and isinstance(r, ast.Constant) and r.value is None:
+            try:
+                lv = it.ev(l, env, facts)
+            except AnalysisError:
+                lv = None
+            if isinstance(lv, Sym) and lv.kind == 'raw':
+                out = []
+                for absent in (True, False):
+                    f2 = Facts(facts.items)
+                    f2.marks = dict(getattr(facts, 'marks', {}))
+                    f2.marks[('absent', lv.side, lv.attr)] = absent
+                    out.append((absent if isinstance(t.ops[0], ast.Is) else not absent, f2))
+                return out
         ls, rs = self.side(l), self.side(r)
         if ls and rs:
             # comparison of raw spellings: undecided, no numeric information
@@ -413,6 +427,11 @@ def r2_compare(rep, src):
         weird = [v for v in used_vars if '!' in v]
         if weird:
             bad.append('the epoch is converted without the default "0" (%s): an absent epoch is not treated as 0' % weird[0])
+            continue
+        absent = [k for k, v in marks.items() if k[0] == 'absent' and v is True]
+        if absent and isinstance(payload, int) and not (payload in (-1, 1) and (fx.entails(R - L - 1) or fx.entails(L - R - 1))):
+            bad.append('the result %d is decided by the absence of %s.%s: an absent component must compare like "0" (e.g. "1.0" and "1.0-0" are equal)'
+                       % (payload, absent[0][1], absent[0][2]))
             continue
         if isinstance(payload, int):
             if payload == -1 and fx.entails(R - L - 1):
